@@ -68,8 +68,14 @@ def make_case(g, rng):
                       "invalid_deleted_key", "invalid_use_before_create", "malformed_run_space", "over_cap", "over_cap_cli_override",
                       "missing_source_file", "missing_yaml", "usage_error", "missing_required_key", "missing_required_key",
                       "dry_validate", "dry_dry_run", "dry_run_space", "execute_ok", "execute_ok", "execute_fail", "execute_fail",
-                      "invalid_plus_validate", "missing_key_plus_dry_run", "missing_self_written_key"])
+                      "invalid_plus_validate", "missing_key_plus_dry_run", "missing_self_written_key",
+                      "missing_key_of_second_same_named_processor", "dry_run_space_without_blocks", "dry_run_space_without_blocks"])
     nodes = base_pipeline(g)
+    if cls == "missing_key_of_second_same_named_processor":
+        # two generated processors that get the SAME class name (both write `label`) but need different keys; the key only
+        # the second one needs is not supplied
+        nodes.insert(2, {"processor": "template:\"{stem}_raw\":label"})
+        nodes.insert(4, {"processor": "template:\"{outdir}/{stem}_scaled\":label"})
     if cls == "missing_self_written_key" and not any("tplk" in n["processor"] for n in nodes):
         nodes.insert(2, {"processor": "template:\"{tplk}_x\":tplk"})
     has_boom = any(n["processor"] == "VBoom" for n in nodes)
@@ -176,6 +182,24 @@ def make_case(g, rng):
     elif cls == "usage_error":
         argv_extra += [rng.choice(["--no-such-flag", "--run-space-max-runs=abc"])]
         expect = {"rc": 1, "executes": False}
+    elif cls == "dry_run_space_without_blocks":
+        # a run-space dry run on a configuration whose effective run space has NO blocks: still nothing may execute
+        nodes = [{"processor": "VSrc", "parameters": {"value": 2.0}}, {"processor": "VFileSink", "parameters": {"path": "early_sink.txt"}},
+                 {"processor": "VMul", "parameters": {"factor": 3.0}}, {"processor": "VNullSink"}]
+        how = rng.choice(["no_run_space_flag", "empty_blocks_yaml_flag", "empty_blocks_cli_flag"])
+        if how == "no_run_space_flag":
+            run_space = None
+            argv_extra += ["--run-space-dry-run"]
+        elif how == "empty_blocks_yaml_flag":
+            run_space = {"combine": "combinatorial", "max_runs": 10, "dry_run": True, "blocks": []}
+        else:
+            run_space = {"combine": "combinatorial", "max_runs": 10, "blocks": []}
+            argv_extra += ["--run-space-dry-run"]
+        expect = {"rc": 0, "executes": False}
+    elif cls == "missing_key_of_second_same_named_processor":
+        ctx_lists["stem"] = [f"s{i}" for i in range(n_runs)]
+        ctx_lists.pop("outdir", None)
+        expect = {"rc": 3, "executes": False}
     elif cls in ("missing_required_key", "missing_key_plus_dry_run", "missing_self_written_key"):
         k = rng.choice(sorted(need)) if cls != "missing_self_written_key" else "tplk"
         del ctx_lists[k]
@@ -220,10 +244,13 @@ def make_case(g, rng):
         files["extra_ok.csv"] = "spare_a,spare_b\n" + "".join(f"{1.0 + i},{2.0 + i}\n" for i in range(n_runs))
         run_space["combine"] = "by_position"
         run_space["blocks"].append({"mode": "by_position", "source": {"format": "csv", "path": "extra_ok.csv"}})
-    plan = cli.expand_plan(run_space) if isinstance(run_space.get("blocks"), list) and cls not in ("malformed_run_space", "missing_source_file") and not files else None
+    plan = cli.expand_plan(run_space) if isinstance(run_space, dict) and isinstance(run_space.get("blocks"), list) and run_space.get("blocks") \
+        and cls not in ("malformed_run_space", "missing_source_file") and not files else None
     # where the effective run space is declared: top level, nested under pipeline:, top level + a nested decoy
     # (top level wins), or a --run-space-file + a nested decoy (the file wins)
     placement = rng.choice(["top", "top", "nested", "top_plus_nested_decoy", "file_plus_nested_decoy"])
+    if run_space is None:
+        placement = "top"          # no run space anywhere (a decoy or an override file would be one)
     return {"placement": placement, "class": cls, "nodes": nodes, "run_space": run_space, "argv_extra": argv_extra, "expect": expect, "yaml": yaml_name,
             "plan_len": len(plan) if plan is not None else (n_runs if files and cls == "execute_ok" else None), "first_fail": first_fail, "has_boom": has_boom,
             "files": files}
